@@ -250,7 +250,7 @@ impl RuntimeMemoryImage {
         let address = address.try_to_u64().unwrap();
         for segment in self.memory_segments.iter() {
             if address >= segment.base_address
-                && address <= segment.base_address + segment.bytes.len() as u64
+                && address < segment.base_address + segment.bytes.len() as u64
             {
                 let start_index = (address - segment.base_address) as usize;
                 if let Some(end_index) = segment.bytes[start_index..].iter().position(|&b| b == 0) {
